@@ -91,7 +91,7 @@ def main():
     ap.add_argument("pid")
     ap.add_argument("--tier", default=os.environ.get("VERIF_TIER", "quick"))
     ap.add_argument("--replay")
-    ap.add_argument("--only", help="substring filter on condition names (debugging)")
+    ap.add_argument("--only", help="comma-separated substring filter on condition names (debugging)")
     ap.add_argument("--jobs", type=int, default=min(16, os.cpu_count() or 4))
     a = ap.parse_args()
     tier = a.tier if a.tier in ("quick", "thorough") else "quick"
@@ -137,7 +137,7 @@ def main():
         mod = write_module(modname, spec["source"])
     conds = spec["conditions"]
     if a.only:
-        conds = [c for c in conds if a.only in c["name"]]
+        conds = [c for c in conds if any(x in c["name"] for x in a.only.split(","))]
     # 2. CrossHair per condition
     results = []
     with cf.ThreadPoolExecutor(max_workers=a.jobs) as ex:
